@@ -472,6 +472,32 @@ def long_tours(case):
     return c
 
 
+def relaxed(case):
+    """The same problem with most of what makes jobs unassignable taken away (skills, tour limits, most time windows, late shift ends)
+    while fleet size, capacities, breaks, reloads stay: states in which every customer job is assigned over several tours and
+    conditional jobs (breaks of idle vehicles, unused reload / recharge markers) wait in `ignored`."""
+    c = copy.deepcopy(case)
+    c['id'] = case['id'] + 'R'
+    r = random.Random(case['seed'] * 37 + 11)
+    for vt in c['problem']['fleet']['vehicles']:
+        vt.pop('limits', None)
+        vt.pop('skills', None)
+        for sh in vt['shifts']:
+            if 'end' in sh:
+                start = datetime.datetime.strptime(sh['start']['earliest'], '%Y-%m-%dT%H:%M:%SZ')
+                sh['end']['latest'] = (start + datetime.timedelta(seconds=20000)).strftime('%Y-%m-%dT%H:%M:%SZ')
+    for j in c['problem']['plan']['jobs']:
+        j.pop('skills', None)
+        for key in ('pickups', 'deliveries', 'replacements', 'services'):
+            for t in j.get(key, []):
+                for pl in t['places']:
+                    if r.random() < 0.85:
+                        pl.pop('times', None)
+    c['features'] = sorted((set(c.get('features', [])) - {'limits', 'skills', 'travel_only'}) | {'relaxed'})
+    c['travel_only'] = False
+    return c
+
+
 def _metric(case):
     """triangle inequality for all matrices (durations and distances), no unreachable entries"""
     for m in case["matrices"]:
